@@ -27,6 +27,12 @@ std::istream & operator>>(std::istream & is, StringDelimiter<delimiter>& output)
 
 inline bool file_exists(std::filesystem::path p)
 {
+    // A directory can be opened too, but a request only ever resolves to a file
+    std::error_code ec;
+    if (!std::filesystem::is_regular_file(p, ec))
+    {
+        return false;
+    }
     std::ifstream infile(p.string());
     return infile.good();
 }
